@@ -130,6 +130,11 @@ def pattern_row_major(H, shape):
     out = H.getattr(p, "raw_data")
     H.check("length", len(out) == lines * tracks * 8)
     H.check("byte_identical", H.eq(out, img))
+    # a second image loaded into the SAME pattern (which now holds notes) replaces every cell
+    img2 = H.bytes("img2", lines * tracks * 8)
+    H.setattr(p, "raw_data", img2)
+    out2 = H.getattr(p, "raw_data")
+    H.check("second_image_byte_identical", H.eq(out2, img2))
     H.cover("reached")
 
 
